@@ -141,7 +141,7 @@ func runCase(c Case) *hx.Failure {
 		if isControl(w.err) {
 			return discard("unspecified.control-signal-leaves-candidate")
 		}
-		return finish(hx.Failf("not-catchable:"+short(errType(w.err)), "the error escaped try/except: %v\n%s", w.err, wrap(c)))
+		return finish(hx.Failf("not-catchable:"+errClass(w.err), "the error escaped try/except: %v\n%s", w.err, wrap(c)))
 	}
 	caught, _, _ := w.global.GetValue("caught")
 	if caught != nil {
@@ -149,8 +149,9 @@ func runCase(c Case) *hx.Failure {
 		classes = append(classes, "wrapped.caught")
 	} else {
 		classes = append(classes, "wrapped.no-error")
-		if bareRaised {
-			return finish(hx.Failf("not-catchable:"+short(errType(bare.err)), "the bare candidate failed with %v, inside try the except clause did not see an error\n%s", bare.err, wrap(c)))
+		// (a source which asks for the time or a random number may take another path in its second run)
+		if bareRaised && !strings.Contains(c.Src, "rand") && !strings.Contains(c.Src, "now") && !strings.Contains(c.Src, "timestamp") {
+			return finish(hx.Failf("not-catchable:"+errClass(bare.err), "the bare candidate failed with %v, inside try the except clause did not see an error\n%s", bare.err, wrap(c)))
 		}
 	}
 	return finish(nil)
